@@ -1,5 +1,6 @@
 """C01 — column definitions are reproduced exactly and in order; none lost or invented (E1, reference model)."""
 import itertools
+import re
 
 from ..util import diff, norm, run_ddl, short, is_table, snippet as _snip
 
@@ -24,7 +25,9 @@ TYPES = [("int", "int", None), ("varchar(20)", "varchar", 20), ("decimal(10,2)",
          ("float(7,3) unsigned zerofill", "float unsigned zerofill", [7, 3])]
 DEFAULTS = ["0", "7", "1234", "12345678901234567890", "'a'", "''", "'A b C'", "NULL", "TRUE", "now()", "CURRENT_TIMESTAMP", "1.5", "-1", "0.50", "10.25", "'0'",
             # PostgreSQL (pg_dump) casts, incl. a cast to a two-word type
-            "'new'::character varying", "'x'::text", "0::numeric", "'a b'::character varying"]
+            "'new'::character varying", "'x'::text", "0::numeric", "'a b'::character varying",
+            # calls: several arguments, nested, schema-qualified, and pg_dump's serial default (a cast INSIDE the call)
+            "to_date('01','DD')", "s9.f(1, 2)", "coalesce(g(1), 0)", "uuid_generate_v4()", "nextval('s9.q'::regclass)"]
 OPTS = ["NN", "NULL", "DEF", "PK", "UQ", "REF", "UQK"]  # UQK = the MySQL spelling UNIQUE KEY
 CONTRA = [{"NN", "NULL"}, {"NULL", "PK"}, {"UQ", "UQK"}]
 REFS = ["REFERENCES o(x)", "REFERENCES o (x)", "REFERENCES s9.o(x)", "REFERENCES o(key)", "REFERENCES orders (order)", "REFERENCES o(comment)"]
@@ -189,6 +192,9 @@ def evaluate(case):
                 continue
             for i, (e, c) in enumerate(zip(cols, got)):
                 g = {a: norm(c.get(a, "<absent>")) for a in ATTRS}
+                if isinstance(e.get("default"), str) and "(" in e["default"] and not e["default"].startswith("'") and isinstance(g["default"], str) \
+                        and g["default"].replace(" ", "") == e["default"].replace(" ", ""):
+                    g["default"] = e["default"]  # a call expression is compared modulo blanks (it is not a literal)
                 if g != norm(e):
                     bad = [a for a in ATTRS if g[a] != norm(e)[a]]
                     diffs.append(diff("table %d column %d" % (k, i), "column-attr:" + ",".join(bad), e, g))
@@ -198,7 +204,12 @@ def evaluate(case):
 
 
 def features(case):
-    return []
+    f = []
+    if case.get("fam") == "A" and "DEF" in case.get("opts", []) and re.search(r"\(.*::.*\)", DEFAULTS[case["default"]]):
+        f.append("default:cast-inside-call")
+    if case.get("fam") == "A" and "DEF" in case.get("opts", []) and re.search(r"\w\(\w+\(.*\)\s*,", DEFAULTS[case["default"]]):
+        f.append("default:nested-call-followed-by-argument")
+    return f
 
 
 def describe(case):
